@@ -106,7 +106,12 @@ fn pipe_case(rt: &tokio::runtime::Runtime, dir: &Path, case: &Value, n: usize) -
 			remove_path(&p);
 			// written by the independent encoder of that format (the real writers are the subject of C01, not of this check)
 			let fsrc = Source { fmt: f.to_string(), tf: s.src.tf.clone(), tc: s.src.tc.clone(), tiles: s.src.tiles.clone(), blobs: s.src.blobs.clone(), by_bytes: s.src.by_bytes.clone() };
-			let _ = produce(rt, &json!({"origin":"indep","choices":{"partial_blocks":1,"dot_prefix":1}}), &fsrc, &p);
+			let (ok, err) = produce(rt, &json!({"origin":"indep","choices":{"partial_blocks":1,"dot_prefix":1}}), &fsrc, &p);
+			if !ok {
+				// the harness's own encoder could not write the source file (disk full, bad scratch path): not a verdict
+				eprintln!("TOOL: cannot write the source file {}: {err}", p.display());
+				std::process::exit(6);
+			}
 			file_paths.push(p);
 		}
 	}
@@ -150,6 +155,15 @@ fn pipe_case(rt: &tokio::runtime::Runtime, dir: &Path, case: &Value, n: usize) -
 			ev[k] = json!([]);
 		}
 	};
+	// a root that cannot be built although every direct child can (each on its own) is the ROOT's failure (clause rel_build)
+	let kids_built = |ev: &mut Value| {
+		if tree["op"] == "leaf" || tree["op"] == "debug" || case["invalid"] == 1 {
+			return;
+		}
+		let subtrees: Vec<&Value> = if tree["op"] == "overlay" { tree["srcs"].as_array().unwrap().iter().collect() } else { vec![&tree["src"]] };
+		let v: Vec<u8> = subtrees.iter().map(|c| matches!(catch(|| rt.block_on(factory.operation_from_vpl(&render(c)))), Ok(Ok(_))) as u8).collect();
+		ev["kids_built"] = json!(v);
+	};
 	let op = match built {
 		Ok(Ok(op)) => op,
 		Ok(Err(e)) => {
@@ -157,6 +171,7 @@ fn pipe_case(rt: &tokio::runtime::Runtime, dir: &Path, case: &Value, n: usize) -
 			ev["panic"] = json!(0);
 			ev["err"] = json!(format!("{e:#}").chars().take(200).collect::<String>());
 			empty(&mut ev);
+			kids_built(&mut ev);
 			return ev;
 		}
 		Err(p) => {
@@ -164,6 +179,7 @@ fn pipe_case(rt: &tokio::runtime::Runtime, dir: &Path, case: &Value, n: usize) -
 			ev["panic"] = json!(1);
 			ev["err"] = json!(p.chars().take(200).collect::<String>());
 			empty(&mut ev);
+			kids_built(&mut ev);
 			return ev;
 		}
 	};
